@@ -84,7 +84,7 @@ theorem park_keeps (sm : Msg) (hc : ParksCmd sm.cmd) : Rel KeepsSbufInv (parkMod
 
 theorem stepRel (m : Msg) : StepRel KeepsSbufInv m where
   pre := preO
-  write := fun line => Rel.transportWrite (fun _ h => h) line
+  write := fun _ _ => Rel.transportWrite (fun _ h => h) _
   setNode := fun _ => sbuf_same fun _ => rfl
   alloc := sbuf_same fun _ => rfl
   erase := fun k bm _ => Rel.modifySt _ fun s hs => by
@@ -101,7 +101,7 @@ theorem sbufInv_recv (env : Env) (line : Str) (w : W) (h : SbufInv w.st) : SbufI
   (rel_recv preO (fun _ m _ => stepRel m) (fun _ _ _ sm hc => park_keeps sm hc) env).step w h
 
 theorem sbufInv_send (obj : Option Msg) (b : Bool) (w : W) (h : SbufInv w.st) : SbufInv (apiSend obj b w).2.st :=
-  (rel_apiSend (stepRel default) park_keeps obj b).step w h
+  (rel_apiSend preO (fun _ => Rel.transportWrite (fun _ h => h) _) park_keeps obj b).step w h
 
 theorem sbufInv_history (ops : List Op) (st : St) (h : SbufInv st) : SbufInv (stateAfter st ops) := by
   induction ops generalizing st with
@@ -205,7 +205,7 @@ theorem others_sbuf_same (n : Int) {f : St → St} (h : ∀ s, (f s).sbuf = s.sb
 
 theorem othersKept_stepRel (m : Msg) : StepRel (OthersKept m.node) m where
   pre := othersKept_preO m.node
-  write := fun line => Rel.transportWrite (fun _ _ _ => Iff.rfl) line
+  write := fun _ _ => Rel.transportWrite (fun _ _ _ => Iff.rfl) _
   setNode := fun _ => others_sbuf_same _ fun _ => rfl
   alloc := others_sbuf_same _ fun _ => rfl
   erase := fun k bm hbm => Rel.modifySt _ fun s e he => by
